@@ -241,6 +241,10 @@ func (rn *runner) feeCase(cb []sigShape, mix attrMix, scriptLen int) {
 			e.f.add(fmt.Sprintf("fee:one-less-rejected-for-another-reason:%s:%s:%s", shapeKey, rn.st.Name, path), rec(path, less, "rejected for the fee", v))
 		}
 	}
+	if len(canon) < 600 {
+		e.r.Sample(map[string]any{"sub": "fee", "state": rn.st.Name, "signers": name, "attributes": mix.Name, "script_length": scriptLen,
+			"calculator_fee": calc, "size": size, "with_fee": res[pathFromBytes].String(), "tx_hex": hex.EncodeToString(canon)})
+	}
 	// spellings: hash and size for every transaction, verdicts for the
 	// single-signer ones (quick) / up to two signers (thorough)
 	withVerdict := len(cb) == 1 && (e.thor || scriptLen == 1 || scriptLen == transaction.MaxScriptLength)
